@@ -19,6 +19,16 @@ Specification: spec/SourceLine.tla
     source is rewritten (each physical line with a seed-chosen vector, each file with a file vector) and assembled
     like the test driver does; the p2bin image must equal the recorded tests/<t>/<t>.ori.   quick: 2 rewritten
     variants per test (402 programs), thorough: 10.
+(R) SourceLine_RL: the reader (ReadLnCont: physical lines, chunked fgets, CR/LF/^Z stripping, backslash
+    continuation).  TLC checks for every chain of 1..4 physical lines x {LF, CR-LF per line, none at the end} x
+    {nothing, blank, tab before the backslash} x comment behind the chain x buffer states (real 1024/128/128 and
+    small ones that force several chunks; thorough: long pieces too) that the logical line is the concatenation
+    of the pieces, that exactly the chain is consumed and that the following line is intact (ReadsAsText,
+    NextLineIntact, SameAsLF); CRSplitFromLF (CR and LF split over two chunks keeps the CR) is exhibited.  The
+    same chains (incl. pieces of 1100 characters = several chunks) are rendered into small sources and assembled
+    with their line ends and with LF only: same code file required (quick 240 chains, thorough 6000); the logical
+    lines the assembler delivered (`line` hook) are validated as FILE events (FileLines(file) = delivered).
+    In the corpus replay the CR-LF / mixed file vectors now apply to continuation lines as well.
 (V) SourceLine_Trace: `split` hook events of the original runs (quick: seed-chosen sample of distinct lines across
     all tests; thorough: every distinct line, ~161 k) must satisfy Split(raw, params) = logged fields; for rewritten
     lines (PAIR events) additionally SameStatement(original, rewritten).
@@ -48,8 +58,10 @@ Mutations of the real code tried on a scratch copy (selftest/C16-m*.py, selftest
   m4 strutil.c: KillPostBlanks strips blanks only (tab before ,)   105 ctest failures caught
   -- as.c: "lab:op" without blank not split at the colon           3 ctest failures   caught
   -- as.c: no KillPostBlanks on arguments ("a ,b")                 7 ctest failures   caught
-  -- strutil.c: CR in front of LF not stripped                     ctest passes       NOT caught - equivalent for
-     the code: CR is white space for SplitLine; only continuation lines would differ and they stay untouched.
+  m5 strutil.c: CR test indexes p_line->p_str instead of pDest     ctest passes       caught (t_longline with
+     (CR kept on continuation lines / later chunks)                                   CR-LF/mixed ends + 20 chain sources)
+  -- strutil.c: CR in front of LF never stripped                   ctest passes       same class as m5 (CR hides the
+     backslash of a continuation); caught since continuation lines take part in the CR-LF rewrite.
 ./check C16 --selftest shows the trace binding (a changed field of a recorded split event is rejected).
 """
 import os
@@ -360,7 +372,7 @@ def main(tier):
     chains = [v["chain"] for (tag, v) in rlg.printed if tag == "OUT" and v.get("kind") == "chain"]
     multi = [c for c in chains if len(c) >= 2]
     r.shuffle(multi)
-    multi = multi[:(400 if quick else 6000)]
+    multi = multi[:(240 if quick else 6000)]
     groups = [multi[i:i + 6] for i in range(0, len(multi), 6)]
     with Phase("continuation chains: %d chains in %d sources, CR-LF/mixed vs LF spelling" % (len(multi), len(groups))):
         with cf.ProcessPoolExecutor(max_workers=NCPU) as ex:
@@ -374,7 +386,7 @@ def main(tier):
                           "than with LF line ends (rc %s vs %s): %s" % (cr["rc_var"], cr["rc_ref"], cr["msg"][-200:]),
                           case={"test": "(generated continuation chains)", "chains": g},
                           files={"a.asm": cr["var"], "a_lf.asm": cr["ref"]}, key={"kind": "chain", "deviation": "none"})
-        if cr["lines"] is not None:
+        if cr["lines"] is not None and (not quick or len(file_ev) < 25):
             file_ev.append([{"a": "FILE", "data": list(cr["var"]), "lines": [srcline.codes(x) for x in cr["lines"]]}])
     rep.traces(len(groups))
     rep.part("chains", chains=len(multi), sources=len(groups), enumerated=len(chains))
